@@ -122,8 +122,9 @@ fn main() {
             for idx in 0..count {
                 let mut r = base.fork(idx);
                 let line = fam.gen(&mut r, idx);
-                let out = fam.run(&line, &mut ctx);
                 writeln!(ops, "{}", line).unwrap();
+                ops.flush().unwrap();
+                let out = fam.run(&line, &mut ctx);
                 writeln!(imp, "{}", out).unwrap();
                 for v in ctx.viols.drain(..) {
                     writeln!(viol, "{}\t{}\t{}", idx, line, v).unwrap();
@@ -147,8 +148,9 @@ fn main() {
             let text = std::fs::read_to_string(&args[3]).unwrap();
             let mut count = 0u64;
             for (idx, line) in text.lines().filter(|l| !l.trim().is_empty() && !l.starts_with('#')).enumerate() {
-                let out = fam.run(line, &mut ctx);
                 writeln!(ops, "{}", line).unwrap();
+                ops.flush().unwrap();
+                let out = fam.run(line, &mut ctx);
                 writeln!(imp, "{}", out).unwrap();
                 for v in ctx.viols.drain(..) {
                     writeln!(viol, "{}\t{}\t{}", idx, line, v).unwrap();
